@@ -65,8 +65,27 @@ def wa (t : String) : Option WA :=
   else if t.startsWith "k" then ((t.drop 1).toString.toNat?).bind fun n => if n < 65536 then some (.wconst (BitVec.ofNat 16 n)) else none
   else none
 
+/-- a linear expression in prefix form: `P a op b` (pair) | `L <e> op y` (e ∘ y) | `R x op <e>` (x ∘ e) -/
+def lexpr : Nat → List String → Option (LExpr × List String)
+  | 0, _ => none
+  | f + 1, "P" :: a :: o :: b :: r => do let a ← ra a; let o ← bop o; let b ← ra b; some (.pair a o b, r)
+  | f + 1, "L" :: r => do
+    let (e, r1) ← lexpr f r
+    match r1 with
+    | o :: y :: r2 => do let o ← bop o; let y ← ra y; some (.left e o y, r2)
+    | _ => none
+  | f + 1, "R" :: x :: o :: r => do
+    let x ← ra x; let o ← bop o
+    let (e, r1) ← lexpr f r
+    some (.right x o e, r1)
+  | _, _ => none
+
 def flat (t : String) : Option RStmt :=
   match t.splitOn ":" with
+  | "lin" :: v :: rest => do
+    let v ← lv v
+    let (e, r) ← lexpr (rest.length + 1) rest
+    if r.isEmpty then some (RStmt.lin v e) else none
   | "chain" :: v :: a :: o1 :: b1 :: rest =>
     -- chain:<lv>:<a>:<op1>:<b1>:<op2>:<b2>…
     let rec pairs : List String → Option (List (BOp × RA))
